@@ -52,7 +52,7 @@ func miniStr(s string) string {
 	}
 	return fmt.Sprintf("s%d\"%s\"", len(s), s)
 }
-func miniReq(name string) []byte  { return []byte("C" + miniStr(name) + "z") }
+func miniReq(name string) []byte { return []byte("C" + miniStr(name) + "z") }
 func miniResp(val string) []byte { return []byte("R" + miniStr(val) + "z") }
 func miniParse(b []byte) string {
 	s := string(b)
